@@ -254,6 +254,58 @@ def _walk_function(fn):
         stack.extend(ast.iter_child_nodes(n))
 
 
+def expand_conditional_callees(tree) -> int:
+    """canonical form: `f = A if c else B` ... `S[f(args)]` (f bound once, used once, as the callee of a call that is the
+    whole value of a return / assignment / expression statement of the same block) is analysed as
+    `if c: S[A(args)] else: S[B(args)]`"""
+    import copy as _copy
+    count = 0
+    for fn in ast.walk(tree):
+        if not isinstance(fn, (ast.FunctionDef, ast.AsyncFunctionDef)):
+            continue
+        stores, loads = {}, {}
+        for n in ast.walk(fn):
+            if isinstance(n, ast.Name):
+                d = stores if isinstance(n.ctx, (ast.Store, ast.Del)) else loads
+                d[n.id] = d.get(n.id, 0) + 1
+        stack = [fn]
+        while stack:
+            node = stack.pop()
+            for blk in _blocks(node):
+                i = 0
+                while i < len(blk):
+                    a = blk[i]
+                    if isinstance(a, ast.Assign) and len(a.targets) == 1 and isinstance(a.targets[0], ast.Name) \
+                            and isinstance(a.value, ast.IfExp) and stores.get(a.targets[0].id) == 1 \
+                            and loads.get(a.targets[0].id) == 1 \
+                            and all(isinstance(x, (ast.Attribute, ast.Name)) for x in (a.value.body, a.value.orelse)):
+                        t = a.targets[0].id
+                        for j in range(i + 1, len(blk)):
+                            b = blk[j]
+                            call = b.value if isinstance(b, (ast.Return, ast.Assign, ast.Expr)) else None
+                            if isinstance(call, ast.Call) and isinstance(call.func, ast.Name) and call.func.id == t:
+                                arms = []
+                                for callee in (a.value.body, a.value.orelse):
+                                    st = _copy.deepcopy(b)
+                                    st.value.func = _copy.deepcopy(callee)
+                                    arms.append(st)
+                                new = ast.If(test=a.value.test, body=[arms[0]], orelse=[arms[1]])
+                                ast.copy_location(new, b)
+                                ast.fix_missing_locations(new)
+                                blk[j] = new
+                                del blk[i]
+                                count += 1
+                                i -= 1
+                                break
+                            if any(isinstance(x, ast.Name) and x.id == t for x in ast.walk(b)):
+                                break
+                    i += 1
+                for st in blk:
+                    if not isinstance(st, (ast.FunctionDef, ast.AsyncFunctionDef, ast.ClassDef)):
+                        stack.append(st)
+    return count
+
+
 def inline_return_temporaries(tree) -> int:
     """canonical form, applied to every function before analysis: `tmp = <expr>` immediately followed by `return tmp`,
     where tmp is a local that is bound nowhere else and read nowhere else, is the same program as `return <expr>`.
@@ -331,6 +383,7 @@ class ModuleInfo:
         self.source = source
         self.tree = ast.parse(source, filename=path)
         self.propagated_aliases = propagate_attribute_aliases(self.tree)
+        self.expanded_callees = expand_conditional_callees(self.tree)
         self.inlined_returns = inline_return_temporaries(self.tree)
         self.functions: Dict[str, FuncInfo] = {}
         self.classes: Dict[str, ClassInfo] = {}
@@ -421,6 +474,11 @@ class Repo:
         # canonical form: helpers that are new with respect to the confirmed baseline are analysed inside their callers
         from . import inline
         self.inlined = inline.apply(self)
+        if self.inlined:
+            # the bindings made by the inliner are aliases / temporaries like any other
+            for m in self.modules.values():
+                propagate_attribute_aliases(m.tree)
+                inline_return_temporaries(m.tree)
 
     # ---- anchors ---------------------------------------------------------------------------
     def module(self, name: str) -> ModuleInfo:
